@@ -30,23 +30,34 @@ PROP = "C02"
 LEAN = {"module": "Pygom.Props.C02", "extra_modules": ["Pygom.Lemmas.Integrate"],
         "required": ["Pygom.C02.rows_correct", "Pygom.C02.rows_aliased", "Pygom.C02.integrate_rows",
                      "Pygom.C02.integrate2_rows", "Pygom.C02.solve_determ_rows", "Pygom.C02.method_dispatch"]}
-BUDGET = {"quick": {"fake": 240, "models": 40, "catalogue": 8, "radau_every": 2},
-          "thorough": {"fake": 2000, "models": 500, "catalogue": 16, "radau_every": 4}}
+BUDGET = {"quick": {"fake": 240, "models": 40, "catalogue": 8, "radau_every": 2, "cython": 1},
+          "thorough": {"fake": 4000, "models": 1500, "catalogue": 32, "radau_every": 4, "cython": 8}}
 RULE = ("fake-integrator cases: random entry point (integrateFuncJac, integrate2, _integrate2, integrate, solve_determ), "
-        "1-4 states, dyadic x0/c/t0, grid kind (uniform, non-uniform, one point, scalar, empty, not-a-time), container "
-        "(list/tuple/ndarray), method in {None,lsoda,vode,ivode,dopri5,dop853,unknown string}, full_output, includeOrigin, "
-        "random aliasing table, random eigenvalue summary; non-trivial when the call returned rows for >=1 requested time. "
-        "Runtime cases: autonomous random models from harness/gen.py (1-4 states, <=4 events, parameters in [1/8,1], "
-        "x0 in [1/4,2], horizon min(Tmax, 2/|J(x0)|), uniform or non-uniform grid) and catalogue models "
-        "(pygom.common_models) x 43 entry-point configurations; non-trivial when the reference moves by >1e-3 and "
-        "every configuration was compared with it")
-ASSUMPTIONS = ["scipy's integrators (odeint, ode: lsoda/vode/dopri5/dop853) approximate the flow within their tolerances - "
-               "assumed in Lean (Laws S), validated on every run: |row - ref| <= 1e-6(1+|ref|) against solve_ivp DOP853 1e-12",
-               "random runtime models are restricted to well-conditioned instances: exp(int max(mu_2(J),0) dt) <= 20 along "
-               "the reference and |x| <= 1e3 (others are rejected and counted, never judged)",
-               "np.array(solution) reads buffer cells at the end; scipy's set_initial_value copies its argument (measured)"]
+        "1-4 states, dyadic x0/c/t0, grid kind (uniform, non-uniform incl. repeated/unsorted times, one point, scalar, empty, "
+        "not-a-time, None), container (list/tuple/ndarray/int/float/np.float64), method in {None,lsoda,vode,ivode,dopri5,dop853, "
+        "unknown strings}, full_output, includeOrigin, random aliasing table per integrator, random eigenvalue summary (incl. the "
+        "thresholds 0 and -2 exactly); non-trivial when the call returned rows that agree with the model. "
+        "Runtime cases: autonomous random models from harness/gen.py (1-4 states, 1-4 events, all routes, derived parameters, "
+        "explicit ODE terms; parameters in [1/8,1], x0 in [1/4,2], horizon min(Tmax, 2/|J(x0)|), uniform or non-uniform grid of "
+        "2-8 points, list or ndarray) and catalogue models of pygom.common_models (SIS, SIR, SEIR, Lotka_Volterra, SIR_norm, "
+        "FitzHugh, vanDerPol, Lorenz; equations re-written by hand from their docstrings) x 43 entry-point configurations "
+        "(integrate x2, solve_determ x2, integrate2 x 6 methods x full_output, integrateFuncJac x 6 methods x full_output x "
+        "includeOrigin, scalar t x3); non-trivial when the reference solution moves by >1e-3 and every configuration was judged")
+ASSUMPTIONS = ["PARTIAL: scipy's integrators (odeint; ode: lsoda/vode/dopri5/dop853) approximate the flow within tolerance - a "
+               "hypothesis of the Lean theorems (Laws S: identity + semigroup of an ideal flow), validated on every run: "
+               "|row - ref| <= 1e-6 (1+|ref|) against solve_ivp DOP853 rtol=atol=1e-12 (Radau cross-check <= 1e-8 on a subset)",
+               "odeint-based entry points (integrate, solve_determ) run at scipy's default tolerance 1.49e-8: on instances where "
+               "scipy's own odeint on the Lean right-hand side (no pygom involved) is itself further than 5e-8 (1+|ref|) from the "
+               "reference, their acceptance is 20 x that error instead of 1e-6 (tagged odeint-acceptance=20x-direct-odeint-error)",
+               "random runtime instances are restricted to well-conditioned ones: reference exists, |x| <= 1e3, "
+               "exp(int max(mu_2(J),0) dt) <= 20 along the reference, odeint at 1e-10 within 1e-8 (1+|ref|); others are rejected, "
+               "counted in the input distribution, never judged",
+               "scipy's set_initial_value copies its argument and an aliased r.y is overwritten by the next integrate (measured "
+               "on the real scipy before every run, recorded as aliased_measured_on_real_scipy)",
+               "np.array(solution) reads list cells only at the end of integrateFuncJac"]
 TRUSTED = ["harness fake integrator (exact dyadic arithmetic in float64)", "harness float evaluator of the Lean ODE expressions",
-           "scipy.integrate.solve_ivp DOP853/Radau as reference", "Lean driver JSON codec"]
+           "scipy.integrate.solve_ivp DOP853/Radau as reference", "Lean driver JSON codec and `assemble` (tied to pygom by C01)",
+           "hand-written catalogue equations (docstrings of pygom.common_models)"]
 
 INTEGRATORS = ["lsoda", "vode", "vode:bdf", "dopri5", "dop853"]
 METHODS = [None, "lsoda", "vode", "ivode", "dopri5", "dop853"]
@@ -143,7 +154,8 @@ def gen_fake(rng):
         t = {"none": True}
     else:
         t = {"other": True}
-        container = rng.choice(["None", "str", "dict"])
+        # solve_determ(None) is its own branch (grid kind "none"): InputError before integrate is reached
+        container = rng.choice(["str", "dict"] if entry == "solve_determ" else ["None", "str", "dict"])
     method = gen.wchoice(rng, [(None, 3), ("lsoda", 2), ("vode", 2), ("ivode", 2), ("dopri5", 2), ("dop853", 2),
                                ("rk45", 1), ("LSODA", 1)])
     al = rng.choice(["random", "random", "lsoda_only", "none", "all"])
@@ -266,6 +278,8 @@ def make_cases(rng, tier, budget):
         cases.append(gen_catalogue(random.Random(rng.getrandbits(64)), off + i, i % budget["radau_every"] == 0))
     for i in range(budget["models"]):
         cases.append(gen_runtime_model(random.Random(rng.getrandbits(64)), i, i % budget["radau_every"] == 0))
+        if i < budget.get("cython", 0):
+            cases[-1]["backend"] = "cython"      # pygom's default compile back-end (seconds of gcc per evaluator)
     return cases
 
 
@@ -543,11 +557,14 @@ def reference(f, x0, t0, grid, radau):
         # conditioning: bound on the amplification of local errors, exp(int max(mu_2(J(x(t))),0) dt)
         tt = np.linspace(t0, grid[-1], 41)
         mus, nrm = [], []
-        for ti in tt:
-            J = fd_jac(f, ti, s.sol(ti))
-            mus.append(max(0.0, float(np.max(np.linalg.eigvalsh((J + J.T) / 2)))))
-            nrm.append(float(np.linalg.norm(J, 2)))
-        amp = math.exp(float(np.trapezoid(mus, tt)))
+        try:
+            for ti in tt:
+                J = fd_jac(f, ti, s.sol(ti))
+                mus.append(max(0.0, float(np.max(np.linalg.eigvalsh((J + J.T) / 2)))))
+                nrm.append(float(np.linalg.norm(J, 2)))
+        except (ZeroDivisionError, OverflowError, ValueError, np.linalg.LinAlgError) as exc:
+            return None, "conditioning-undefined:%s" % type(exc).__name__
+        amp = math.exp(min(700.0, float(np.trapezoid(mus, tt))))
         info = {"amp": amp, "stiff": float(np.trapezoid(nrm, tt))}
         info["direct"] = direct_solver_error(f, x0, t0, grid, ref)
         if radau:
@@ -647,11 +664,12 @@ def run_runtime(case):
         spec = ent["spec"]
         model = getattr(common_models, case["name"])()
         from .. import bootstrap
-        bootstrap.fast_backend(model)
+        if case.get("backend", "lambda") == "lambda":
+            bootstrap.fast_backend(model)
         tags.append("catalogue:%s" % case["name"])
     else:
         spec = case["spec"]
-        model = pymodel.build(spec, backend="lambda")
+        model = pymodel.build(spec, backend=case.get("backend", "lambda"))
         for k in case.get("kinds", []):
             tags.append("rate:" + k)
         tags.append("nS=%d" % case["nS"])
@@ -672,12 +690,15 @@ def run_runtime(case):
     else:
         try:
             L = float(np.linalg.norm(fd_jac(f, t0, x0), 2))
-        except (ZeroDivisionError, OverflowError):
+        except (ZeroDivisionError, OverflowError, ValueError):
+            return {"nontrivial": False, "mismatches": mism, "violations": viol, "tags": tags + ["rejected:rhs-undefined-at-x0"]}
+        if not np.isfinite(L):
             return {"nontrivial": False, "mismatches": mism, "violations": viol, "tags": tags + ["rejected:rhs-undefined-at-x0"]}
         T = min(float(case["Tmax"]), 2.0 / L) if L > 0 else float(case["Tmax"])
         T = float(Fraction(T).limit_denominator(1024)) or 1.0 / 1024
         grid = [t0 + T * float(Fraction(v)) for v in case["fracs"]]
     tags.append("grid=%s" % case["grid_kind"])
+    tags.append("backend:%s" % case.get("backend", "lambda"))
     ref, info = reference(f, x0, t0, grid, case.get("radau"))
     if ref is None:
         return {"nontrivial": False, "mismatches": mism, "violations": viol, "tags": tags + ["rejected:%s" % info]}
